@@ -65,7 +65,10 @@ pub fn remove_condition_parentheses(expression: Expression) -> Expression {
                 .has_leading_comments(CommentSearch::All) =>
         {
             let (_, comments) = trivia_util::take_trailing_comments(&expression);
-            inner_expression.update_trailing_trivia(FormatTriviaType::Append(comments))
+            // The condition may be wrapped in several layers of parentheses: remove them all, so that a second run finds nothing left to remove
+            remove_condition_parentheses(
+                inner_expression.update_trailing_trivia(FormatTriviaType::Append(comments)),
+            )
         }
         _ => expression,
     }
